@@ -323,3 +323,175 @@ func VerifH_c11_waittable() {
 	}
 	vAssert("table-empty-after-all-left", len(wt.table) == 0)
 }
+
+func vBlockingArgs(cmd int, timeout string) []string {
+	switch cmd {
+	case 0:
+		return []string{"BLPOP", "k", timeout}
+	case 1:
+		return []string{"BRPOP", "k", timeout}
+	case 2:
+		return []string{"BLMOVE", "k", "dst", "LEFT", "RIGHT", timeout}
+	case 3:
+		return []string{"BRPOPLPUSH", "k", "dst", timeout}
+	}
+	return []string{"BLMPOP", timeout, "1", "k", "LEFT"}
+}
+
+// VerifH_c12_timer: the timer a blocking command arms.  With timeout t > 0
+// the strand waits on a timer of exactly t; when it is woken but another
+// consumer has taken the element (20 ms later on the harness clock) it waits
+// again on a timer of exactly t - 20 ms, so the total is t; when the timer
+// fires the reply is null and the connection is back to normal.  Timeout 0
+// arms no deadline that can be reached.
+func VerifH_c12_timer() {
+	VerifSetup()
+	vSetNow(vT0, 0)
+	disp := vNewServer()
+	cs := vNewClientOn(disp)
+	other := vNewClientOn(disp)
+	cmd := vChoice("cmd", 5)
+	ti := vChoice("timeout", 5)
+	tstr := []string{"0", "0.05", "1", "2.5", "1000000"}[ti]
+	tns := []int64{0, 50000000, 1000000000, 2500000000, 1000000000000000}[ti]
+	steal := vBool("steal")
+	stage := 0
+	var armed1, armed2 int64 = -2, -2
+	vSetEnv(func(point string) bool {
+		if point != "select" {
+			return false
+		}
+		switch stage {
+		case 0:
+			armed1 = vTimerArmedNs()
+			stage = 1
+			if steal {
+				// 20 ms later an element arrives and a competing consumer takes
+				// it before the woken waiter retries
+				vSetNow(vT0, 20000000)
+				vCmd(other, "RPUSH", "k", "x")
+				vCmd(other, "LPOP", "k")
+				return true
+			}
+			if tns != 0 {
+				vFireTimer()
+				return true
+			}
+		case 1:
+			armed2 = vTimerArmedNs()
+			stage = 2
+			if tns != 0 {
+				vFireTimer()
+				return true
+			}
+		}
+		return false
+	})
+	var reply respValue
+	parked := vRunBlockingOn(cs, func() { reply = vCmd(cs, vBlockingArgs(cmd, tstr)...) })
+	vAssert("timer-first-wait-seen", stage >= 1)
+	if tns == 0 {
+		vAssert("timeout-0-waits-indefinitely", parked)
+		// a deadline that cannot be reached: more than a century
+		vAssert("timeout-0-no-reachable-deadline", armed1 > 3000000000000000000)
+		if parked {
+			vReleaseWaiter(cs)
+		}
+		return
+	}
+	vAssert("timed-block-ends-when-the-timer-fires", !parked)
+	if parked {
+		vReleaseWaiter(cs)
+		return
+	}
+	vAssert("timer-armed-with-the-timeout", armed1 == tns)
+	if steal {
+		vAssert("second-wait-seen", stage == 2)
+		vAssert("remaining-time-after-a-lost-race", armed2 == tns-20000000)
+	}
+	vAssert("timeout-null-reply", vIsNil(reply))
+	vAssert("timer-not-captured-afterwards", atomic.LoadInt32(&cs.blocked) == CS_UNCAPTURED)
+	vAssert("timer-left-every-wait-queue", len(cs.ds.waitingClients.table) == 0)
+	vAssert("timer-next-command-works", vIsOK(vCmd(cs, "SET", "after", "1")))
+}
+
+// VerifH_c12_unblock_anytime: CLIENT UNBLOCK [TIMEOUT|ERROR] arriving at an
+// arbitrary point of the block protocol of any of the five blocking
+// commands: it reports 1 exactly when it ends the block (null reply or
+// UNBLOCKED error, connection back to normal), and 0 when the client goes on
+// to wait; it is never lost and never ends a later block.
+func VerifH_c12_unblock_anytime() {
+	VerifSetup()
+	disp := vNewServer()
+	cs := vNewClientOn(disp)
+	other := vNewClientOn(disp)
+	cmd := vChoice("cmd", 5)
+	asError := vBool("error")
+	id := vItoa(int(cs.id))
+	done := false
+	atSelect := false
+	var ureply respValue
+	vSetEnv(func(point string) bool {
+		if done {
+			return false
+		}
+		if !vBool("now") {
+			return false
+		}
+		done = true
+		atSelect = point == "select"
+		if asError {
+			ureply = vCmd(other, "CLIENT", "UNBLOCK", id, "ERROR")
+		} else {
+			ureply = vCmd(other, "CLIENT", "UNBLOCK", id)
+		}
+		return true
+	})
+	var reply respValue
+	parked := vRunBlockingOn(cs, func() { reply = vCmd(cs, vBlockingArgs(cmd, "0")...) })
+	if !done {
+		vAssert("nothing-ends-an-indefinite-block", parked)
+		if parked {
+			vReleaseWaiter(cs)
+		}
+		return
+	}
+	if atSelect {
+		vAssert("unblock-of-a-waiting-client-reports-1", vIsInt(ureply, 1))
+	}
+	if vIsInt(ureply, 1) {
+		vAssert("reported-unblock-ends-the-block", !parked)
+		if parked {
+			vReleaseWaiter(cs)
+			return
+		}
+		if asError {
+			vAssert("unblock-error-reply", vIsErr(reply))
+		} else {
+			vAssert("unblock-null-reply", vIsNil(reply))
+		}
+		vAssert("unblocked-not-captured", atomic.LoadInt32(&cs.blocked) == CS_UNCAPTURED)
+		vAssert("unblocked-nothing-pending", atomic.LoadInt32(&cs.unblockPending) == 0 && len(cs.unblockCh) == 0)
+		vAssert("unblocked-left-every-wait-queue", len(cs.ds.waitingClients.table) == 0)
+		// a later push stays in the list; the connection can block again and is served
+		vCmd(other, "RPUSH", "k", "x")
+		vAssert("later-push-stays", vListLen(other, "k") == 1)
+		var r2 respValue
+		vSetEnv(func(point string) bool { return false })
+		parked2 := vRunBlockingOn(cs, func() { r2 = vCmd(cs, "BLPOP", "k", "0") })
+		vAssert("blocks-again-and-is-served", !parked2)
+		if parked2 {
+			vReleaseWaiter(cs)
+			return
+		}
+		a, ok := vArrayOf(r2)
+		vAssert("second-block-reply", ok && len(a) == 2 && vIsBulk(a[1], "x"))
+		return
+	}
+	vAssert("unblock-reports-0-or-1", vIsInt(ureply, 0))
+	// not blocked at that moment: the unblock must not be remembered
+	vAssert("unreported-unblock-does-not-end-the-block", parked)
+	if parked {
+		vReleaseWaiter(cs)
+	}
+}
